@@ -15,7 +15,13 @@ META = {
             "Basic, payload credentials, valid/cached/expired/tampered/truncated/revoked native tokens, valid and eight "
             "kinds of invalid JWT) x random user databases through the real ServeHTTP; flags read from the real Route "
             "structs and the by-construction verdicts are fed to the model and invoked/status are compared; a model-free "
-            "oracle checks 'handler ran => declared requirements held' and 'requirements held => handler ran'.",
+            "oracle checks 'handler ran => declared requirements held' and 'requirements held => handler ran'. The "
+            "requirements must hold AT THE TIME OF THE REQUEST: request SEQUENCES (fixed nasty histories, then random ones) "
+            "interleave requests on Authentication(true), Permissions(...), open and real-table routes with credential-state "
+            "changes done through the repository's own functions (token / JWT revoked after use, un-revoked, token cache "
+            "aged out, user deleted / re-created, permission removed / granted, password changed) against the REAL token, "
+            "JWT and blacklist caches; every request of a history is a serve case with the verdict its credential has at "
+            "that moment by construction, checked by the same correspondence and oracle.",
     "note": "trusted: Lean kernel; the harness (probe substitution, credential construction, the by-construction verdict of "
             "each credential form). Modelled, not verified here: the credential primitives themselves (token decryption and "
             "revocation = C21, JWT validation = C22, password hashing, lock-out bookkeeping) enter the model as verdicts; "
@@ -36,7 +42,14 @@ REQUIRED = ["C20_gate", "C20_serve", "C20_unauthenticated_refused", "C20_locked_
 # every credential form named by the property must have been driven in a run
 MUST_FORMS = ["none", "basic-bad-base64", "basic-wrong-password", "basic-locked-out", "basic-valid", "payload-valid",
               "token-valid", "token-valid-cached", "token-valid-uncached", "token-expired", "token-tampered", "token-revoked",
-              "jwt-all-scopes", "jwt-missing-one-scope", "jwt-expired", "jwt-bad-signature", "jwt-rogue-key"]
+              "jwt-all-scopes", "jwt-missing-one-scope", "jwt-expired", "jwt-bad-signature", "jwt-rogue-key",
+              # request sequences (credential state changes between requests)
+              "seq-native-reused", "seq-native-revoked-after-use", "seq-native-unrevoked", "seq-jwt-revoked-after-use",
+              "seq-jwt-unrevoked", "seq-basic-current-password", "seq-basic-old-password"]
+
+# every kind of credential-state change must have happened between requests of some sequence
+MUST_SEQ_OPS = ["revoke", "unrevoke", "token-cache-aged-out", "delete-user", "write-user", "remove-permission",
+                "grant-permission", "change-password"]
 
 
 def run(ctx):
@@ -66,6 +79,10 @@ def run(ctx):
     missing = [f for f in MUST_FORMS if f not in forms]
     if missing:
         ctx.broken.append("credential forms not exercised: %s" % ", ".join(missing))
+    missing_ops = [o for o in MUST_SEQ_OPS if c.get("seq_op:" + o, 0) < 1]
+    if missing_ops or c.get("sequences", 0) < 3 or c.get("seq_real_routes", 0) < 1 or c.get("seq_revoke_errors", 0) or c.get("seq_unrevoke_errors", 0):
+        ctx.broken.append("request sequences not (fully) driven: sequences=%s real routes=%s missing ops=%s revoke errors=%s/%s" % (
+            c.get("sequences"), c.get("seq_real_routes"), ",".join(missing_ops), c.get("seq_revoke_errors", 0), c.get("seq_unrevoke_errors", 0)))
     ctx.coverage.update({
         "evaluations": len(cases),
         "distinct_nontrivial": c.get("distinct_nontrivial", 0),
@@ -73,7 +90,10 @@ def run(ctx):
                 "non-trivial = the route declares authentication or permissions (the gate has something to decide); build lines: "
                 "distinct builder call sequences. Declarations: fixed corpus of 27 nasty multisets in all orders, random multisets "
                 "of 1-4 calls in all orders, random sequences of 1-9 calls; databases vary who holds all / all but one / root / none "
-                "of the route's permissions in varying letter case",
+                "of the route's permissions in varying letter case. Sequences: fixed histories of a native token and of a JWT "
+                "(used, revoked, presented again, un-revoked, permission removed/granted, user deleted/re-created, password "
+                "changed, revoked with an aged-out cache), then random interleavings of 10-19 requests / state changes over "
+                "1-2 native tokens, a JWT and Basic credentials on seven routes",
         "samples": st.get("samples", []),
         "credential_forms": forms,
         "counters": {k: v for k, v in c.items() if not k.startswith("us:")},
